@@ -5,6 +5,10 @@ import OmbottModel.Lemmas.RouterEditMaps
 import OmbottModel.Lemmas.RouterParse
 import OmbottModel.Lemmas.RouterEditFresh
 import OmbottModel.Lemmas.RouterEditFreshWitness
+import OmbottModel.Lemmas.RouterListingKeys
+import OmbottModel.Lemmas.RouterListingRender
+import OmbottModel.Lemmas.RouterListingWitness
+import OmbottModel.Lemmas.RouterListingPrefix
 /-!
 C11 — The router after any edit history equals a freshly built router.
 Property theorems only; helper lemmas live in `Lemmas/RouterEdit*.lean`.
@@ -282,6 +286,245 @@ theorem hooks_fire_exactly (upper : Str → Str) (ops : List EditOp) (hok : ∀ 
       have hmem : rule ∈ denote (Router.editRun upper ops).tree := (hR.inv.den _).mpr (specResolve_mem hsr).1
       exact specHooks_index hR env rule.pat (hR.inv.notok rule hmem) hT _
 
+
+/-! ## enumerating and printing the router, key forms of `__getitem__`
+(`Model/RouterListing.lean`; helper lemmas in `Lemmas/RouterListing*.lean`) -/
+
+/-- **`RadiDict._routes_iter()` yields exactly the routes the tree holds.**  For every tree `t`
+(no hypothesis): reading pattern, filters, `DATA` and `PARAMS` off the node paths the
+explicit-stack loop yields (`listedOf`) gives, in this order, `denPostN t` — the rules of
+`denote t` listed depth first with the literal children in stored order, then the wildcard child,
+then the node itself (the loop yields a node when its frame is popped, i.e. *after* its subtree;
+`denote` lists it before) — every yielded path ends in a node holding a route, and `denPostN t` is
+a rearrangement of `denote t` (same rules, same multiplicities).  For a well-formed tree no
+pattern occurs twice, so every stored route is yielded exactly once. -/
+theorem routes_iter_eq_denote (t : Node) :
+    ((routesIter t).map listedOf).map Listed.rule? = (denPostN t).map some ∧
+    (denPostN t).Perm (denote t) ∧
+    (WFN t → ((denote t).map (·.pat)).Nodup ∧ (((routesIter t).map listedOf).map (·.pat)).Nodup) := by
+  refine ⟨routesIter_rules t, denPostN_perm t, fun h => ⟨denN_pats_nodup t h, ?_⟩⟩
+  rw [map_pat_of_rule? (routesIter_rules t)]
+  exact ((denPostN_perm t).map _).nodup_iff.mpr (denN_pats_nodup t h)
+
+/-- `_routes_iter(yield_hooks=True)` lists, in the same children-first order, every node that holds
+a route or a hook pair (`listPostN true`); the routes among them are again `denPostN t`, in the
+same order as without the flag. -/
+theorem routes_iter_yield_hooks (t : Node) :
+    (routesIter t [] true).map listedOf = listPostN true t ∧
+    ((routesIter t [] true).map listedOf).filterMap Listed.rule? = denPostN t ∧
+    ((routesIter t [] true).map listedOf).filterMap Listed.rule? =
+      ((routesIter t).map listedOf).filterMap Listed.rule? :=
+  ⟨routesIter_listed true t, routesIter_filterMap_rules true t,
+    (routesIter_filterMap_rules true t).trans (routesIter_filterMap_rules false t).symm⟩
+
+/-- **`_routes_iter(startswith=sw)` selects by pattern prefix.**  In a well-formed tree whose
+listed patterns hold no literal marker character, for a marker-free `sw` the enumeration started
+with `startswith=sw` (walk along `sw` without filters, a key that `sw` ends inside is accepted
+when it starts with what is left) lists exactly the entries of the full enumeration whose pattern
+starts with `sw` up to filters — equivalently, whose pattern *string* starts with the string of
+`sw` — in the order of the full enumeration; a prefix no pattern has lists nothing. -/
+theorem routes_iter_startswith (yh : Bool) (t : Node) (h : WFN t) (sw : List Sym) (hsw : NoLitTok sw)
+    (hk : ∀ l ∈ listPostN yh t, NoLitTok l.pat) :
+    (routesIter t sw yh).map listedOf = ((routesIter t [] yh).map listedOf).filter (prefB sw) ∧
+    ∀ l ∈ (routesIter t [] yh).map listedOf, (prefB sw l = true ↔ patStr sw <+: patStr l.pat) := by
+  rw [routesIter_listed]
+  exact ⟨routesIter_startswith yh t h sw hsw hk, fun l hl => prefB_iff_patStr hsw (hk l hl)⟩
+
+/-- … and after any edit history, for any string `s` given as `startswith`: the routes whose
+pattern string starts with `s`, in the order of the full enumeration. -/
+theorem routes_iter_startswith_after_history (upper : Str → Str) (ops : List EditOp)
+    (hok : ∀ op ∈ ops, EditOK op) (s : Str) :
+    let R := Router.editRun upper ops
+    (routesIter R.tree (symsOfStr s)).map listedOf =
+      ((routesIter R.tree).map listedOf).filter (fun l => s.isPrefixOf (patStr l.pat)) :=
+  startswith_of_einv (editRun_inv upper ops hok) s
+
+/-- **After any edit history the enumeration of the tree, the `routes` index and the name index
+list the same routes** (corollary of `router_refines_maps`): the routes `_routes_iter()` yields
+are a rearrangement of the rules of the `routes` index (each exactly once); the pattern strings
+yielded are a rearrangement of the keys of `routes` (`list(app.routes)`); and every route a name
+of `named_routes` points at is among the yielded ones. -/
+theorem routes_iter_after_history (upper : Str → Str) (ops : List EditOp) (hok : ∀ op ∈ ops, EditOK op) :
+    let R := Router.editRun upper ops
+    (((routesIter R.tree).map listedOf).filterMap Listed.rule?).Perm R.rules ∧
+    (((routesIter R.tree).map listedOf).map fun l => patStr l.pat).Perm R.appRoutes ∧
+    (∀ nm id, (nm, id) ∈ R.named → ∃ l ∈ (routesIter R.tree).map listedOf, l.data = some id) :=
+  listing_of_einv (editRun_inv upper ops hok)
+
+/-- **The rule text `_render_route` prints parses back to the pattern it was printed from** —
+on exactly the patterns described by `Renderable` (`Lemmas/RouterListingRender.lean`): all
+wildcards plain (the printer writes `:name` only, so *no* filter kind — `int`, `float`, `path`,
+`re`, `rex` — can be printed), each with an identifier name of its own (not the stored
+`anon-<k>` of an anonymous wildcard), each followed by `/` or the end of the pattern, literal
+text free of `:`, `<`, `{` and CR.  Then `parse_rule('/' + _render_route(pattern, names))`
+returns the same pattern, the same names and no filters.  (Outside that domain the examples
+below show the three ways it fails.) -/
+theorem render_route_roundtrip (cenv : CompileEnv) (p : List Sym) (names : List Str)
+    (h : Renderable p names) :
+    parseRule cenv ('/' :: renderRoute (patStr p) names) = .ok ⟨p, names, p⟩ := by
+  rw [render_eq_printRule h, parseRule_printRule cenv _ (segsOK_segsOf h),
+    parseParts_abs cenv _ (segsOK_segsOf h) (filtersBuild_segsOf cenv h) 0, absParsed_segsOf h 0]
+
+/-- `RadiDict.params_unpack` undoes `Route.params_signature`: for a rule without a repeated
+wildcard name, `_set` receives the names and filters exactly as `parse_rule` listed them (what
+`Model/Router.lean` passes to `insN` directly), all exclusivity flags false. -/
+theorem params_signature_unpack (names : List Str) (filters : List (Option Fid))
+    (hnd : names.Nodup) (hlen : names.length = filters.length) :
+    paramsUnpack (some (paramsSignature names filters)) = (names.map fun _ => false, filters, names) := by
+  unfold paramsSignature paramsUnpack
+  have hz : ((names.zip filters).map (·.1)).Nodup := by rw [zip_map_fst _ _ hlen]; exact hnd
+  have := foldl_dictSet_fresh (names.zip filters) [] hz (fun _ _ _ hy => by cases hy)
+  simp only [List.nil_append] at this
+  simp only [this, List.map_map, Function.comp_def]
+  refine Prod.ext ?_ (Prod.ext ?_ ?_)
+  · simp only
+    have := zip_map_fst names filters hlen
+    calc (names.zip filters).map (fun _ => false) = ((names.zip filters).map (·.1)).map (fun _ => false) := by
+          simp [List.map_map, Function.comp_def]
+      _ = names.map fun _ => false := by rw [this]
+  · exact zip_map_snd names filters hlen
+  · exact zip_map_fst names filters hlen
+
+/-- **Every key form `RadiRouter.__getitem__` accepts, and what it refuses.**
+(1) a `str` is looked up in `named_routes` (`None` when absent, never an exception);
+(2) `{rule}`, `{'rule': rule}` and `RouteKey(rule)` (non-empty `rule`) are one and the same
+lookup, `_match(rule)` with filters compared (`byRule`);
+(3) `{'pattern': s}`, `{'route_pattern': s}` and `RouteKey(pattern=s)` are one and the same
+lookup, the walk along the pattern string without filters (`matchStr`);
+(4) everything else raises exactly as the code does: the empty set `IndexError`; a set or dict
+with more than one item, the empty dict, a dict under any other keyword (`filters`, `get_hooks`,
+unknown, not a `str`), a value that is not a `str`, `RouteKey()` / `RouteKey('')` /
+`RouteKey(None)` (they become `{'pattern': None}`), and any key that is neither `str`, `set`
+nor `dict`: `TypeError`; `RouteKey(rule, pattern=…)` with both given: `TypeError` from the
+constructor. -/
+theorem getitem_forms_agree (cenv : CompileEnv) (R : Router) :
+    (∀ nm, R.getItem cenv (.name nm) = .ok (R.byName nm)) ∧
+    (∀ rule, R.getItem cenv (.set [.str rule]) = R.byRule cenv rule ∧
+      R.getItem cenv (.dict [(.str "rule".toList, .str rule)]) = R.byRule cenv rule ∧
+      (rule ≠ [] → R.getByRouteKey cenv (.str rule) .none = R.byRule cenv rule)) ∧
+    (∀ s, R.getItem cenv (.dict [(.str "pattern".toList, .str s)]) = R.matchStr s ∧
+      R.getItem cenv (.dict [(.str "route_pattern".toList, .str s)]) = R.matchStr s ∧
+      R.getByRouteKey cenv .none (.str s) = R.matchStr s) ∧
+    (R.getItem cenv (.set []) = .error "IndexError" ∧
+      (∀ es, 1 < es.length → R.getItem cenv (.set es) = .error "TypeError") ∧
+      (∀ items, items.length ≠ 1 → R.getItem cenv (.dict items) = .error "TypeError") ∧
+      (∀ k v, k ≠ .str "rule".toList → k ≠ .str "pattern".toList → k ≠ .str "route_pattern".toList →
+        R.getItem cenv (.dict [(k, v)]) = .error "TypeError") ∧
+      (∀ k v, (∀ s, v ≠ .str s) → R.getItem cenv (.dict [(k, v)]) = .error "TypeError") ∧
+      (∀ v, (∀ s, v ≠ .str s) → R.getItem cenv (.set [v]) = .error "TypeError") ∧
+      R.getItem cenv .other = .error "TypeError" ∧
+      (∀ a b, a ≠ .none → b ≠ .none → R.getByRouteKey cenv a b = .error "TypeError") ∧
+      (∀ a, a.truthy = false → R.getByRouteKey cenv a .none = .error "TypeError")) := by
+  refine ⟨fun _ => rfl, fun rule => ⟨rfl, rfl, ?_⟩, fun s => ⟨rfl, rfl, rfl⟩, rfl, ?_, ?_, ?_, ?_, ?_, rfl, ?_, ?_⟩
+  · intro hne
+    cases rule with
+    | nil => exact absurd rfl hne
+    | cons c cs => rfl
+  · intro es hes
+    simp only [Router.getItem]
+    rw [if_pos (by omega)]
+  · intro items hlen
+    simp only [Router.getItem]
+    by_cases h1 : items.length > 1
+    · rw [if_pos h1]
+    · rw [if_neg h1]
+      cases items with
+      | nil => rfl
+      | cons x xs =>
+        cases xs with
+        | nil => simp at hlen
+        | cons y ys => simp at h1
+  · intro k v h1 h2 h3
+    rw [getItem_dict_single]
+    exact matchKw_other_keyword cenv R _ v (renameKw_other h1 h2 h3).1 (renameKw_other h1 h2 h3).2
+  · intro k v hv
+    rw [getItem_dict_single]
+    exact matchKw_value_not_str cenv R _ v hv
+  · intro v hv
+    simp only [Router.getItem, List.length_singleton, gt_iff_lt, Nat.lt_irrefl, if_false]
+    exact matchKw_value_not_str cenv R _ v hv
+  · intro a b ha hb
+    simp only [Router.getByRouteKey, routeKeyNew_both a b ha hb]
+  · intro a ha
+    simp only [Router.getByRouteKey, routeKeyNew_falsy a ha]
+    rw [getItem_dict_single]
+    exact matchKw_value_not_str cenv R _ _ (fun s h => by cases h)
+
+/-- **A lookup returns the route object `resolve` dispatches on.**  After any edit history:
+`router[{rule}]` returns the route `id` exactly when the rule parses (without leading `/` in
+the pattern) to a pattern — filters included — that the `routes` index lists with `id`, and it
+raises exactly the parser's error or the `/` assertion; `router[{'pattern': s}]` returns `id`
+exactly when `routes` lists a rule with pattern string `s` and route `id`; `router[name]` returns
+a route of the index, the one `_match` finds under its pattern.  And for every path the plain
+matcher resolves (no `rex` selector): `resolve(path)` returns that rule's route, every rule text
+that parses to the rule's pattern gets the same route from `router[{rule}]`, the pattern-string
+forms get it from `router[{'pattern': …}]`, and every name registered for a route with that
+pattern gets it from `router[name]`. -/
+theorem getitem_returns_resolved_route (upper : Str → Str) (ops : List EditOp) (hok : ∀ op ∈ ops, EditOK op)
+    (cenv : CompileEnv) :
+    let R := Router.editRun upper ops
+    (∀ rule id, R.byRule cenv rule = .ok (some id) ↔
+      ∃ p, parseRule cenv rule = .ok p ∧ p.syms.head? ≠ some (.lit '/') ∧
+        ∃ keys, (⟨p.syms, id, keys⟩ : Rule) ∈ R.rules) ∧
+    (∀ rule e, R.byRule cenv rule = .error e ↔ parseRule cenv rule = .error e ∨
+      ∃ p, parseRule cenv rule = .ok p ∧ p.syms.head? = some (.lit '/') ∧ e = "AssertionError") ∧
+    (∀ s id, R.matchStr s = .ok (some id) ↔
+      s.head? ≠ some '/' ∧ ∃ e ∈ R.rules, patStr e.pat = s ∧ e.data = id) ∧
+    (∀ nm id, R.byName nm = some id →
+      ∃ r, R.obj? id = some r ∧ (patStr r.syms, id) ∈ R.routes ∧ R.matchPat r.syms = some id) ∧
+    (∀ env, NoSel env → ∀ path rule vs, specResolve env R.rules (stripSlash path) = some (rule, vs) →
+      R.resolveRoute env path = some rule.data ∧
+      (∀ rtext p, parseRule cenv rtext = .ok p → p.syms = rule.pat → p.syms.head? ≠ some (.lit '/') →
+        R.byRule cenv rtext = .ok (some rule.data)) ∧
+      ((patStr rule.pat).head? ≠ some '/' → R.matchStr (patStr rule.pat) = .ok (some rule.data)) ∧
+      (∀ nm id r, R.byName nm = some id → R.obj? id = some r → r.syms = rule.pat → id = rule.data)) := by
+  intro R
+  have hE := editRun_inv upper ops hok
+  refine ⟨fun rule id => byRule_iff hE.inv cenv rule id, fun rule e => byRule_error cenv rule e,
+    fun s id => matchStr_iff hE.inv s id, ?_, ?_⟩
+  · intro nm id hn
+    have hmem := dictGet_mem hn
+    obtain ⟨r, hr, hin⟩ := hE.named nm id hmem
+    refine ⟨r, hr, hin, ?_⟩
+    rw [matchPat_iff hE.inv.wf]
+    exact ⟨r.params, (hE.inv.den _).mpr ((mem_rules _ _).mpr ⟨_, id, r, hin, hr, rfl⟩)⟩
+  · intro env hns path rule vs hsr
+    have hrule := (specResolve_mem hsr).1
+    refine ⟨?_, ?_, ?_, ?_⟩
+    · rw [resolveRoute_eq hE.inv env hns, hsr]; rfl
+    · intro rtext p hp hsy hh
+      rw [byRule_iff hE.inv]
+      exact ⟨p, hp, hh, rule.keys, by rw [hsy]; exact hrule⟩
+    · intro hh
+      rw [matchStr_iff hE.inv]
+      exact ⟨hh, rule, hrule, rfl, rfl⟩
+    · intro nm id r hn hr hsy
+      have hmem := dictGet_mem hn
+      obtain ⟨r', hr', hin⟩ := hE.named nm id hmem
+      rw [hr] at hr'; cases hr'
+      have h1 : (⟨r.syms, id, r.params⟩ : Rule) ∈ R.rules := (mem_rules _ _).mpr ⟨_, id, r, hin, hr, rfl⟩
+      have := rules_patInj hE.inv _ h1 _ hrule hsy
+      rw [← this]
+
+/-- **The wrappers of `Ombott` add nothing.**  `add_route`, `remove_route(rule)`,
+`remove_route(name=…)`, `on_route`, `remove_route_hook` are the `RadiRouter` calls of the edit
+histories (so every theorem above about `Router.editRun` covers histories made through the
+application object), `remove_route(route_pattern=s)` is the removal of the pattern `s` read as
+`RadiDict._match` reads it, which for a rule text parsing to that pattern is `remove(rule)`; a
+rule wins over a name, a name over a pattern string; `routes` is the index itself. -/
+theorem ombott_wrappers (upper : Str → Str) (cenv : CompileEnv) (R : Router) :
+    (∀ a, R.appAddRoute upper cenv a = R.add upper cenv a) ∧
+    (∀ rule nm s, R.appRemoveRoute cenv (some rule) nm s = R.removeRule cenv rule) ∧
+    (∀ nm s, R.appRemoveRoute cenv none (some nm) s = R.removeName nm) ∧
+    (∀ s, R.appRemoveRoute cenv none none (some s) = R.removePattern (symsOfStr s)) ∧
+    (∀ rule p, parseRule cenv rule = .ok p → R.removeRule cenv rule = R.removePattern p.syms) ∧
+    (∀ rule hook, R.appOnRoute cenv rule hook = R.addHook cenv rule hook false) ∧
+    (∀ rule, R.appRemoveRouteHook cenv rule = R.removeHook cenv rule) ∧
+    R.appRoutes = R.routes.map (·.1) := by
+  refine ⟨fun _ => rfl, fun _ _ _ => rfl, fun _ _ => rfl, fun _ => rfl, ?_, fun _ _ => rfl, fun _ => rfl, rfl⟩
+  intro rule p hp
+  simp [Router.removeRule, hp]
+
 /-! ## non-vacuity: concrete instances meeting the hypotheses
 (the trees and histories are defined in `Lemmas/RouterEditWitness.lean`) -/
 
@@ -386,6 +629,84 @@ example : NoSel (fun _ _ => none) ∧
     (Router.editRun id exOps).resolve (fun _ _ => none) "/ab".toList ["GET".toList] =
       .found 0 "GET".toList [] [(2, ⟨some 2, none⟩)] :=
   ⟨fun _ _ _ h => (nomatch h), rfl⟩
+
+
+/-! ### listing and key forms (trees and patterns in `Lemmas/RouterListingWitness.lean`) -/
+
+/-- `routes_iter_eq_denote`: a well-formed tree with a split key, a wildcard child next to a
+literal sibling, a route below the wildcard and a hook-only node; the loop yields the four routes
+children first — literal children in stored order (newest first), the wildcard child last, the
+wildcard's own route after the route below it — while `denote` lists the wildcard's route before its subtree -/
+example : WFN lsT ∧
+    (((routesIter lsT).map listedOf).map fun l => (patStr l.pat, l.data)) =
+      [("abc".toList, some 2), ("a/b".toList, some 1), ("a/\r/d".toList, some 3), ("a/\r".toList, some 0)] ∧
+    ((denote lsT).map fun e => (patStr e.pat, e.data)) =
+      [("abc".toList, 2), ("a/b".toList, 1), ("a/\r".toList, 0), ("a/\r/d".toList, 3)] :=
+  ⟨lsT_wf, by decide, by decide⟩
+
+/-- `routes_iter_yield_hooks`: with `yield_hooks` the hook-only node `a` is listed too, after its
+subtree -/
+example : (((routesIter lsT [] true).map listedOf).map fun l => (patStr l.pat, l.data, l.hooks.isSome)) =
+    [("abc".toList, some 2, false), ("a/b".toList, some 1, false), ("a/\r/d".toList, some 3, false),
+     ("a/\r".toList, some 0, false), ("a".toList, none, true)] := by decide
+
+/-- `startswith`: the enumeration below a prefix that ends inside a key / at a wildcard -/
+example : (((routesIter lsT (symsOfStr "a/".toList)).map listedOf).map fun l => patStr l.pat) =
+      ["a/b".toList, "a/\r/d".toList, "a/\r".toList] ∧
+    (((routesIter lsT (symsOfStr "ab".toList)).map listedOf).map fun l => patStr l.pat) = ["abc".toList] ∧
+    (routesIter lsT (symsOfStr "abx".toList)) = [] := ⟨by decide, by decide, by decide⟩
+
+/-- `routes_iter_startswith`: the example tree is well formed and marker-free, `a/` is marker-free -/
+example : WFN lsT ∧ NoLitTok (symsOfStr "a/".toList) ∧ ∀ l ∈ listPostN true lsT, NoLitTok l.pat := by
+  refine ⟨lsT_wf, noLitTok_symsOfStr _, ?_⟩
+  have : listPostN true lsT = (routesIter lsT [] true).map listedOf := (routesIter_listed true lsT).symm
+  rw [this]
+  intro l hl
+  apply noLitTok_of_test
+  revert l
+  decide
+
+/-- `routes_iter_after_history`: the example history meets the hypothesis; one route survives and
+is what the tree, `routes` and the name `n` list -/
+example : (∀ op ∈ exOps, EditOK op) ∧
+    (((routesIter (Router.editRun id exOps).tree).map listedOf).map fun l => (patStr l.pat, l.data)) =
+      [("ab".toList, some 0)] ∧
+    (Router.editRun id exOps).appRoutes = ["ab".toList] ∧ (Router.editRun id exOps).named = [("n".toList, 0)] :=
+  ⟨exOps_ok, by decide, by decide, by decide⟩
+
+/-- `render_route_roundtrip`: `a/<x>/b/<y_1>` is printed as `a/:x/b/:y_1` -/
+example : Renderable rdPat rdNames ∧ renderRoute (patStr rdPat) rdNames = "a/:x/b/:y_1".toList :=
+  ⟨rdPat_renderable, by decide⟩
+
+/-- outside `Renderable`, (a) a filter is not printed: the text of `a/<x:int>` reads back as the
+plain wildcard; (b) an anonymous wildcard prints as `:anon-0`, which the parser refuses;
+(c) a wildcard followed by literal text other than `/` reads back with the text in its name -/
+example :
+    parseRule cenv0 ('/' :: renderRoute (patStr [.lit 'a', .lit '/', .tok (some "int(None)".toList)]) ["x".toList]) =
+      .ok ⟨[.lit 'a', .lit '/', .tok none], ["x".toList], [.lit 'a', .lit '/', .tok none]⟩ ∧
+    parseRule cenv0 ('/' :: renderRoute (patStr [.tok none]) ["anon-0".toList]) = .error "RouteSyntaxError" ∧
+    parseRule cenv0 ('/' :: renderRoute (patStr [.tok none, .lit 'b']) ["x".toList]) =
+      .ok ⟨[.tok none], ["xb".toList], [.tok none]⟩ := ⟨by rfl, by rfl, by rfl⟩
+
+/-- `params_signature_unpack`: two distinct names; with a repeated name the dict collapses and
+`_set` receives one name and the *last* filter (outside the domain, `inDomain`) -/
+example : ["x".toList, "y".toList].Nodup ∧
+    paramsUnpack (some (paramsSignature ["x".toList, "x".toList] [none, some "int(None)".toList])) =
+      ([false], [some "int(None)".toList], ["x".toList]) := ⟨by decide, by decide⟩
+
+/-- `getitem_forms_agree`, `getitem_returns_resolved_route`: on the edited example router the
+name `n`, the rule `/ab` in the three rule forms, the pattern string `ab` in the three pattern
+forms and `resolve('/ab')` all give route 0; a two-item set is refused -/
+example :
+    (Router.editRun id exOps).getItem cenv0 (.name "n".toList) = .ok (some 0) ∧
+    (Router.editRun id exOps).getItem cenv0 (.set [.str "/ab".toList]) = .ok (some 0) ∧
+    (Router.editRun id exOps).getByRouteKey cenv0 (.str "/ab".toList) .none = .ok (some 0) ∧
+    (Router.editRun id exOps).getItem cenv0 (.dict [(.str "pattern".toList, .str "ab".toList)]) = .ok (some 0) ∧
+    (Router.editRun id exOps).getByRouteKey cenv0 .none (.str "ab".toList) = .ok (some 0) ∧
+    (Router.editRun id exOps).getItem cenv0 (.set [.str "/abc".toList]) = .ok none ∧
+    (Router.editRun id exOps).getItem cenv0 (.set [.str "/ab".toList, .str "/abc".toList]) = .error "TypeError" ∧
+    (Router.editRun id exOps).resolveRoute (fun _ _ => none) "/ab".toList = some 0 :=
+  ⟨by rfl, by rfl, by rfl, by rfl, by rfl, by rfl, by rfl, by rfl⟩
 
 end NonVacuity
 
